@@ -64,6 +64,7 @@ def draw_smc_scenario(
     train_shift=(0.5, 2.0),
     hard=False,
     cut_prob=0.25,
+    offset_prob=0.0,
 ):
     rng = rng_from(seed)
     kind = pick(rng, list(kinds))
@@ -131,6 +132,14 @@ def draw_smc_scenario(
         scn["flow"]["inflate"] = float(rng.uniform(1.0, 1.3))
         if sk.get("adaptive", True) and not isinstance(sk.get("target_efficiency"), list):
             sk["target_efficiency"] = float(np.round(rng.uniform(0.6, 0.9), 3))
+    if offset_prob:
+        # a likelihood carrying a large common constant (thousands of data points do that): every incremental log-weight
+        # is shifted by (beta_new - beta_old) * c, far outside the range of exp() -- nothing the sampler reports except
+        # the evidence itself may depend on it.  Drawn from its own stream so that the other choices stay what they were.
+        r2 = rng_from((int(seed) ^ 0x0FF5E7) % (1 << 62))
+        if r2.uniform() < offset_prob:
+            scn["target"]["c"] = float(pick(r2, [-2800.0, -900.0, 1500.0, 4000.0]))
+            scn["_offset"] = True
     scn["_schedule_mode"] = mode
     scn["_precond"] = pc
     return scn
